@@ -40,7 +40,13 @@ pub fn check(tape: &[u32]) -> CheckResult {
                 return Err(Failure::new("cel-is-empty", format!("cel({},{}).is_empty() = {}, model has cel: {}", fi, li, c.is_empty(), m.is_some())).with(detail(at)));
             }
             let want_tl = m.map_or((0, 0), |c| (c.x as i32, c.y as i32));
-            if c.top_left() != want_tl {
+            // for a linked cel the statement fixes only how it renders; its own stored offset and the
+            // offset of the cel it links to are both accepted
+            let alt_tl = match m.map(|c| &c.content) {
+                Some(CelContent::Link { frame }) => s.cel(*frame as usize, li).map(|t| (t.x as i32, t.y as i32)),
+                _ => None,
+            };
+            if c.top_left() != want_tl && Some(c.top_left()) != alt_tl {
                 return Err(Failure::new("cel-top-left", format!("cel({},{}).top_left() = {:?}, stored {:?}", fi, li, c.top_left(), want_tl)).with(detail(at)));
             }
             let want_tm = m.map_or(false, |c| matches!(c.content, CelContent::Tilemap { .. }));
